@@ -48,7 +48,23 @@ fn synth_dims(c: char, font: u32) -> Option<[i32; 3]> {
         0 => 0,
         r => (r as i32) * (PT / 3),
     };
-    Some([w, h, d])
+    // sparse metrics: the character exists (it has a width) but the repository has no height and/or depth for it;
+    // `FontRepo::width_height_depth` takes those as zero
+    let (no_h, no_d) = synth_missing(k);
+    Some([w, if no_h { 0 } else { h }, if no_d { 0 } else { d }])
+}
+
+fn synth_missing(k: u32) -> (bool, bool) {
+    match (k >> 20) % 16 {
+        0 => (true, false),
+        1 => (false, true),
+        2 => (true, true),
+        _ => (false, false),
+    }
+}
+
+fn synth_key(c: char, font: u32) -> u32 {
+    (c as u32).wrapping_mul(2654435761).wrapping_add(font.wrapping_mul(40503))
 }
 
 impl boxworks::FontRepo for SynthFont {
@@ -56,9 +72,15 @@ impl boxworks::FontRepo for SynthFont {
         synth_dims(c, font).map(|d| Scaled(d[0]))
     }
     fn height(&self, c: char, font: u32) -> Option<Scaled> {
+        if synth_missing(synth_key(c, font)).0 {
+            return None;
+        }
         synth_dims(c, font).map(|d| Scaled(d[1]))
     }
     fn depth(&self, c: char, font: u32) -> Option<Scaled> {
+        if synth_missing(synth_key(c, font)).1 {
+            return None;
+        }
         synth_dims(c, font).map(|d| Scaled(d[2]))
     }
 }
@@ -445,6 +467,11 @@ fn first_difference(got: &ds::HBox, m: &Packed) -> Option<&'static str> {
     }
     if mn != 0 && ord_of(got.glue_order) != m.order {
         return Some("glue-order-differs-from-tex");
+    }
+    // An unset box: TeX §657 (x=0), §658/§664 (no usable glue: then o is `normal`, because o is the highest order with
+    // a non-zero total) always leaves glue_order normal.
+    if mn == 0 && ord_of(got.glue_order) != 0 {
+        return Some("unset-box-has-a-glue-order");
     }
     None
 }
